@@ -21,11 +21,11 @@ type c17Live struct {
 	gw     []ot.Wire        // the garbling's own Wires slice
 	gg     [][]ot.Label     // the garbling's own Gates slice
 	orphan bool
-	key   []byte
-	wires []ot.Wire    // snapshot right after Garble
-	gates [][]ot.Label // snapshot right after Garble
-	wptr  uintptr
-	owner int
+	key    []byte
+	wires  []ot.Wire    // snapshot right after Garble
+	gates  [][]ot.Label // snapshot right after Garble
+	wptr   uintptr
+	owner  int
 }
 
 func snapGates(g [][]ot.Label) [][]ot.Label {
@@ -89,7 +89,7 @@ func runC17(cs *vrt.Case) {
 	what := "generated"
 	if cs.Thorough() && cs.Idx%40 == 39 {
 		var err error
-		c, err = circuit.Parse(vrt.Repo+"/pkg/crypto/aes/aes_128.circ")
+		c, err = circuit.Parse(vrt.Repo + "/pkg/crypto/aes/aes_128.circ")
 		if err != nil {
 			cs.Inconc(err.Error())
 			return
